@@ -285,3 +285,31 @@ class Rng:
         return l[self.below(len(l))]
     def chance(self, num, den):
         return self.below(den) < num
+
+
+def run_harness_guarded(binary, lines, batch_timeout=60, line_timeout=6):
+    """Run commands with a wall-clock watchdog: a command that does not return within line_timeout seconds
+    (alone) yields the result 'HANG'. Batches that time out are bisected."""
+    if not lines:
+        return []
+    inp = "\n".join(lines) + "\n"
+    rc, out, err, dt = sh([binary], timeout=batch_timeout if len(lines) > 1 else line_timeout, inp=inp)
+    if rc == 0:
+        res = out.split("\n")
+        if res and res[-1] == "":
+            res.pop()
+        if len(res) == len(lines):
+            return res
+    if len(lines) == 1:
+        return ["HANG" if rc == 124 else "CRASH:%d" % rc]
+    mid = len(lines) // 2
+    return run_harness_guarded(binary, lines[:mid], batch_timeout, line_timeout) + \
+           run_harness_guarded(binary, lines[mid:], batch_timeout, line_timeout)
+
+
+def run_harness_guarded_parallel(binary, lines, batch_timeout=60, line_timeout=6, nproc=NCPU, chunk=40):
+    import concurrent.futures as cf
+    chunks = [lines[i:i + chunk] for i in range(0, len(lines), chunk)]
+    with cf.ThreadPoolExecutor(nproc) as ex:
+        outs = list(ex.map(lambda c: run_harness_guarded(binary, c, batch_timeout, line_timeout), chunks))
+    return [x for o in outs for x in o]
